@@ -124,3 +124,16 @@ func (c *Client) VRxCount() uint64 {
 	defer c.stats.rx.mu.RUnlock()
 	return c.stats.rx.size.Count()
 }
+
+// VStall keeps the hub's membership lock for d (as a slow status walk or a busy moment would), so that
+// events arriving meanwhile pile up; it returns once the lock is held.
+func (h *Hub) VStall(d time.Duration) {
+	held := make(chan struct{})
+	go func() {
+		h.mu.Lock()
+		close(held)
+		time.Sleep(d)
+		h.mu.Unlock()
+	}()
+	<-held
+}
